@@ -134,6 +134,72 @@ theorem applyScan_marks_ep {len ep chain : Nat} (hc : chain ≠ 0xff) (ctl : Lis
   rw [getD_set]
   simp [hlen, hc]
 
+theorem markOne_keep_val {len ep chain : Nat} (ctl : List Nat) (ord o : Nat)
+    (h : ctl.getD o 0xff = chain) : (markOne len ep chain ctl ord).getD o 0xff = chain := by
+  unfold markOne
+  split
+  · split
+    · exact h
+    · rw [getD_set]; split
+      · rfl
+      · exact h
+  · exact h
+
+theorem foldl_markOne_keep_val {len ep chain : Nat} (marks : List Nat) (o : Nat) :
+    ∀ ctl : List Nat, ctl.getD o 0xff = chain → (marks.foldl (markOne len ep chain) ctl).getD o 0xff = chain := by
+  induction marks with
+  | nil => intro ctl h; exact h
+  | cons a rest ih => intro ctl h; simp only [List.foldl_cons]; exact ih _ (markOne_keep_val ctl a o h)
+
+/-- a scan from an entry point other than 0 never touches an order that already belongs to a scan -/
+theorem markOne_unchanged {len ep chain : Nat} (hep : ep ≠ 0) (ctl : List Nat) (ord o : Nat)
+    (h : ctl.getD o 0xff ≠ 0xff) : (markOne len ep chain ctl ord).getD o 0xff = ctl.getD o 0xff := by
+  unfold markOne
+  split
+  · split
+    · rfl
+    · rename_i hc
+      rw [getD_set]; split
+      · rename_i hh
+        exfalso
+        apply hc
+        refine ⟨hep, ?_⟩
+        rw [hh.1]; exact h
+      · rfl
+  · rfl
+
+theorem foldl_markOne_unchanged {len ep chain : Nat} (hep : ep ≠ 0) (marks : List Nat) (o : Nat) :
+    ∀ ctl : List Nat, ctl.getD o 0xff ≠ 0xff →
+      (marks.foldl (markOne len ep chain) ctl).getD o 0xff = ctl.getD o 0xff := by
+  induction marks with
+  | nil => intro ctl h; rfl
+  | cons a rest ih =>
+    intro ctl h
+    simp only [List.foldl_cons]
+    have h1 := markOne_unchanged (chain := chain) (len := len) hep ctl a o h
+    rw [ih _ (by rw [h1]; exact h), h1]
+
+theorem applyScan_unchanged {len ep chain : Nat} (hep : ep ≠ 0) (ctl : List Nat) (r : ScanRes) (o : Nat)
+    (h : ctl.getD o 0xff ≠ 0xff) : (applyScan len ep chain ctl r).getD o 0xff = ctl.getD o 0xff :=
+  foldl_markOne_unchanged hep _ _ _ h
+
+/-- the entry point of a scan ends up with that scan's id -/
+theorem applyScan_ep_val {len ep chain : Nat} (ctl : List Nat) (r : ScanRes)
+    (hep : ep < len) (hlen : ep < ctl.length) (hfree : ep = 0 ∨ ctl.getD ep 0xff = 0xff) :
+    (applyScan len ep chain ctl r).getD ep 0xff = chain := by
+  unfold applyScan
+  simp only [List.foldl_cons]
+  apply foldl_markOne_keep_val
+  unfold markOne
+  simp only [hep, if_true]
+  have : ¬ (ep ≠ 0 ∧ ctl.getD ep 0xff ≠ 0xff) := by
+    rcases hfree with h | h
+    · simp [h]
+    · intro hh; exact hh.2 h
+  simp only [this, if_false]
+  rw [getD_set]
+  simp [hlen]
+
 theorem firstFree_some {len : Nat} {ctl : List Nat} {ep : Nat} (h : firstFree len ctl = some ep) :
     ep < len ∧ ctl.getD ep 0xff = 0xff := by
   unfold firstFree at h
@@ -161,6 +227,8 @@ structure SeqInv (len : Nat) (st : SeqState) : Prop where
   epsMarked : ∀ e ∈ st.eps, e < len → st.ctl.getD e 0xff ≠ 0xff
   timesNN : ∀ t ∈ st.times, 0 ≤ t
   nodup : st.eps.Nodup
+  head : st.eps.head? = some 0
+  own : ∀ i (h : i < st.eps.length), st.eps[i] < len → st.ctl.getD st.eps[i] 0xff = i
 
 theorem seqLoop_inv (scan : Nat → ScanRes) (len : Nat) (hlen : len ≤ xmpMaxModLength) :
     ∀ (fuel : Nat) (st : SeqState), SeqInv len st → SeqInv len (seqLoop scan len fuel st) := by
@@ -179,6 +247,14 @@ theorem seqLoop_inv (scan : Nat → ScanRes) (len : Nat) (hlen : len ≤ xmpMaxM
         have hc : st.seq ≠ 0xff := by
           have := limits_sane.1; omega
         have hepl : ep < st.ctl.length := by rw [inv.ctlLen]; omega
+        have hep0 : ep ≠ 0 := by
+          intro h0; subst h0
+          have hmem : 0 ∈ st.eps := by
+            have := inv.head
+            cases hq : st.eps with
+            | nil => rw [hq] at this; simp at this
+            | cons x xs => rw [hq] at this; simp at this; subst this; simp
+          exact inv.epsMarked 0 hmem hep hfree
         simp only
         split
         · rename_i htime
@@ -208,6 +284,22 @@ theorem seqLoop_inv (scan : Nat → ScanRes) (len : Nat) (hlen : len ≤ xmpMaxM
             simp at hb; subst hb
             intro hab; subst hab
             exact inv.epsMarked a ha hep hfree
+          · have := inv.head
+            cases hq : st.eps with
+            | nil => rw [hq] at this; simp at this
+            | cons x xs => rw [hq] at this; simpa using this
+          · intro i hi hl
+            rw [List.length_append] at hi
+            simp only [List.length_cons, List.length_nil] at hi
+            by_cases hlt : i < st.eps.length
+            · rw [List.getElem_append_left hlt] at hl ⊢
+              rw [applyScan_unchanged hep0 _ _ _ (inv.epsMarked _ (List.getElem_mem hlt) hl)]
+              exact inv.own i hlt hl
+            · have hieq : i = st.eps.length := by omega
+              subst hieq
+              rw [List.getElem_append_right (Nat.le_refl _)]
+              simp only [Nat.sub_self, List.getElem_cons_zero]
+              rw [applyScan_ep_val _ _ hep hepl (Or.inr hfree), inv.epsLen]
         · apply ih
           constructor <;> simp only
           · rw [applyScan_length]; exact inv.ctlLen
@@ -220,6 +312,10 @@ theorem seqLoop_inv (scan : Nat → ScanRes) (len : Nat) (hlen : len ≤ xmpMaxM
             exact applyScan_nonfree hc _ _ _ (inv.epsMarked e he hl)
           · exact inv.timesNN
           · exact inv.nodup
+          · exact inv.head
+          · intro i hi hl
+            rw [applyScan_unchanged hep0 _ _ _ (inv.epsMarked _ (List.getElem_mem hi) hl)]
+            exact inv.own i hi hl
       · exact inv
 
 
@@ -256,6 +352,13 @@ theorem init_inv (len : Nat) (hlen : len ≤ xmpMaxModLength) (r0 : ScanRes) (ht
     exact applyScan_marks_ep (by decide) _ _ hl (by rw [ctlInit_length]; omega) (Or.inl rfl)
   · intro t h; simp at h; omega
   · simp
+  · rfl
+  · intro i hi hl
+    simp only [List.length_cons, List.length_nil] at hi
+    have : i = 0 := by omega
+    subst this
+    simp only [List.getElem_cons_zero] at hl ⊢
+    exact applyScan_ep_val _ _ hl (by rw [ctlInit_length]; omega) (Or.inl rfl)
 
 /-- **Bookkeeping of `libxmp_scan_sequences`**, for every behaviour of `scan_module`. -/
 theorem scanCore_spec (scan : Nat → ScanRes) (len : Nat) (hlen : len ≤ xmpMaxModLength) (st : SeqState)
